@@ -121,6 +121,7 @@ def resources():
 
 _compilers = {}
 EXTRA_SUBS = {}  # test sub-routines registered through the public Compiler.add_sub_routine (set before forking)
+EXTRA_SUBS_LATE = False  # True: register them only after other behaviours were compiled on the instance
 
 
 def compiler(fmt="READ_STATEMENTS"):
@@ -132,6 +133,12 @@ def compiler(fmt="READ_STATEMENTS"):
         from rzilcompiler.Transformer.RZILTransformer import CodeFormat
         with contextlib.redirect_stdout(io.StringIO()):
             _compilers[fmt] = Compiler(ArchEnum.HEXAGON, code_format=CodeFormat[fmt])
+            if EXTRA_SUBS_LATE:
+                for warm in ("{ RdV = clz32(RsV) + RtV; }", "{ for (i = 0; i < 2; i++) { RdV = RdV + i; } }", "{ RdV = RsV +; }"):
+                    try:
+                        _compilers[fmt].compile_c_stmt(warm)
+                    except Exception:  # noqa - the third one fails to parse on purpose
+                        _compilers[fmt].transformer.reset()
             for n, d in EXTRA_SUBS.items():
                 _compilers[fmt].add_sub_routine(n, d["return_type"], d["params"], d["code"])
     return _compilers[fmt]
